@@ -171,6 +171,87 @@ def _bind(h: _Helper, call: ast.Call, caller_names: Set[str], counter: List[int]
     return pre, subst, rename
 
 
+def _always_returns(stmts: List[ast.stmt]) -> bool:
+    if not stmts:
+        return False
+    last = stmts[-1]
+    if isinstance(last, (ast.Return, ast.Raise)):
+        return True
+    if isinstance(last, ast.If):
+        return bool(last.orelse) and _always_returns(last.body) and _always_returns(last.orelse)
+    if isinstance(last, ast.With):
+        return _always_returns(last.body)
+    if isinstance(last, ast.Try) and not last.handlers and not last.orelse:
+        return _always_returns(last.body)
+    return False
+
+
+def _tailify(stmts: List[ast.stmt], k) -> Optional[List[ast.stmt]]:
+    """Rewrite a block whose `return`s are all in tail position (directly, under
+    if/else, guard clauses `if c: ...return`, `with` bodies, try/finally bodies)
+    so that every `return e` becomes the statements k(e) and control falls out of
+    the end of the block instead.  None if some return is not in tail position
+    (inside a loop, an except handler, ...)."""
+    out: List[ast.stmt] = []
+    for i, st in enumerate(stmts):
+        rest = stmts[i + 1:]
+        if isinstance(st, ast.Return):
+            out.extend(k(st.value))
+            return out  # anything after a return is dead
+        has_ret = any(isinstance(x, ast.Return) for x in ast.walk(st))
+        if not has_ret:
+            out.append(st)
+            continue
+        if isinstance(st, ast.If):
+            if rest and _always_returns(st.body) and not st.orelse:
+                # guard clause: the remainder becomes the else branch
+                b = _tailify(st.body, k)
+                r = _tailify(rest, k)
+                if b is None or r is None:
+                    return None
+                out.append(ast.If(test=st.test, body=b or [ast.Pass()], orelse=r))
+                return out
+            if rest and st.orelse and _always_returns(st.orelse) and not any(isinstance(x, ast.Return) for s2 in st.body for x in ast.walk(s2)):
+                b = _tailify(st.body + rest, k)
+                o = _tailify(st.orelse, k)
+                if b is None or o is None:
+                    return None
+                out.append(ast.If(test=st.test, body=b or [ast.Pass()], orelse=o))
+                return out
+            if rest:
+                if _always_returns([st]):
+                    rest = []
+                else:
+                    return None
+            b = _tailify(st.body, k)
+            o = _tailify(st.orelse, k) if st.orelse else k(None)
+            if b is None or o is None:
+                return None
+            out.append(ast.If(test=st.test, body=b or [ast.Pass()], orelse=o))
+            return out
+        if isinstance(st, ast.With):
+            if rest and not _always_returns(st.body):
+                return None
+            b = _tailify(st.body, k)
+            if b is None:
+                return None
+            out.append(ast.With(items=st.items, body=b or [ast.Pass()]))
+            return out
+        if isinstance(st, ast.Try) and not st.handlers and not st.orelse:
+            if rest and not _always_returns(st.body):
+                return None
+            if any(isinstance(x, ast.Return) for s2 in st.finalbody for x in ast.walk(s2)):
+                return None
+            b = _tailify(st.body, k)
+            if b is None:
+                return None
+            out.append(ast.Try(body=b or [ast.Pass()], handlers=[], orelse=[], finalbody=st.finalbody))
+            return out
+        return None
+    out.extend(k(None))
+    return out
+
+
 def _inline_in_function(fn: ast.FunctionDef, cur_cls: Optional[str], helpers, counter, used: Set[Tuple[Optional[str], str]]) -> bool:
     changed = [False]
     caller_names = _assigned_names(fn)
@@ -221,6 +302,19 @@ def _inline_in_function(fn: ast.FunctionDef, cur_cls: Optional[str], helpers, co
                                 body.append(ast.Expr(value=last.value))
                         out.extend(pre + body)
                         done = True
+                    elif form in ("assign", "expr") and not (h.final_return or h.single_expr or (form == "expr" and h.no_value)) and h.n_returns >= 1:
+                        tgt_nodes = st.targets if form == "assign" else None
+
+                        def k(e, tgt_nodes=tgt_nodes):
+                            if tgt_nodes is None:
+                                return [ast.Expr(value=e)] if e is not None and not isinstance(e, (ast.Constant, ast.Name)) else []
+                            return [ast.Assign(targets=copy.deepcopy(tgt_nodes), value=e if e is not None else ast.Constant(value=None))]
+
+                        tb = _tailify(body, k)
+                        if tb is not None and not any(isinstance(x, ast.Return) for s2 in tb for x in ast.walk(s2)):
+                            out.extend(pre + (tb or [ast.Pass()]))
+                            body = tb
+                            done = True
                     elif form == "assign" and (h.final_return or h.single_expr):
                         last = body.pop()
                         out.extend(pre + body)
@@ -271,6 +365,74 @@ def _inline_in_function(fn: ast.FunctionDef, cur_cls: Optional[str], helpers, co
 
     E().visit(fn)
     return changed[0]
+
+
+def _coalesce_aliases(fn: ast.FunctionDef) -> bool:
+    """Copy propagation for the aliases that inlining leaves behind:
+
+        a = <expr> ... b = a        (a, b plain local names)
+
+    becomes `b = <expr> ...` with every `a` renamed to `b` when `a` and `b` each
+    have exactly one binding in the function (the two shown), neither is a
+    parameter, and `b` is not mentioned before the alias statement.  Pure
+    renaming of a single-assignment local: behaviour preserving."""
+    changed = False
+    for _ in range(20):
+        params = {a.arg for a in fn.args.args + fn.args.kwonlyargs + fn.args.posonlyargs}
+        if fn.args.vararg:
+            params.add(fn.args.vararg.arg)
+        if fn.args.kwarg:
+            params.add(fn.args.kwarg.arg)
+        stores: Dict[str, int] = {}
+        for x in ast.walk(fn):
+            if isinstance(x, ast.Name) and isinstance(x.ctx, (ast.Store, ast.Del)):
+                stores[x.id] = stores.get(x.id, 0) + 1
+            elif isinstance(x, (ast.FunctionDef, ast.Lambda)) and x is not fn:
+                stores["<nested>"] = 1
+        if "<nested>" in stores:
+            return changed
+        cand = None
+
+        def find(stmts):
+            nonlocal cand
+            for i, st in enumerate(stmts):
+                if cand is not None:
+                    return
+                if isinstance(st, ast.Assign) and len(st.targets) == 1 and isinstance(st.targets[0], ast.Name) and isinstance(st.value, ast.Name):
+                    b, a = st.targets[0].id, st.value.id
+                    if a != b and a not in params and b not in params and stores.get(a) == 1 and stores.get(b) == 1:
+                        cand = (stmts, i, a, b, st)
+                        return
+                for fld in ("body", "orelse", "finalbody"):
+                    sub = getattr(st, fld, None)
+                    if isinstance(sub, list) and sub and isinstance(sub[0], ast.stmt):
+                        find(sub)
+                if isinstance(st, ast.Try):
+                    for h in st.handlers:
+                        find(h.body)
+
+        find(fn.body)
+        if cand is None:
+            return changed
+        stmts, i, a, b, st = cand
+        # `b` must not be mentioned anywhere but in the alias statement's target ... before it (single store => only loads matter)
+        order = [x for x in ast.walk(fn)]
+        first_b_load = min((getattr(x, "lineno", 10**9), getattr(x, "col_offset", 0)) for x in order if isinstance(x, ast.Name) and x.id == b and isinstance(x.ctx, ast.Load)) \
+            if any(isinstance(x, ast.Name) and x.id == b and isinstance(x.ctx, ast.Load) for x in order) else (10**9, 0)
+        if first_b_load < (getattr(st, "lineno", 0), getattr(st, "col_offset", 0)):
+            # b read before the alias statement (would now see a's value): leave it
+            stores[a] = -1  # do not retry this candidate
+            # mark by renaming nothing; avoid infinite loop
+            st.value = ast.Name(id=a, ctx=ast.Load())
+            return changed
+        del stmts[i]
+        if not stmts:
+            stmts.append(ast.Pass())
+        for x in ast.walk(fn):
+            if isinstance(x, ast.Name) and x.id == a:
+                x.id = b
+        changed = True
+    return changed
 
 
 def normalize_sources(sources: Dict[str, str], table: Optional[Set[str]] = None) -> Tuple[Dict[str, str], List[str]]:
@@ -329,6 +491,16 @@ def normalize_sources(sources: Dict[str, str], table: Optional[Set[str]] = None)
                                 c.body = [s for s in c.body if not (isinstance(s, ast.FunctionDef) and s.name == name)] or [ast.Pass()]
                     inlined.append(_qual(modname, cls, name))
         if changed_any:
+            ast.fix_missing_locations(tree)
+            # re-parse so that positions are those of the normal form, then tidy the aliases left by inlining
+            tree = ast.parse(ast.unparse(tree))
+            for st in tree.body:
+                if isinstance(st, ast.FunctionDef):
+                    _coalesce_aliases(st)
+                elif isinstance(st, ast.ClassDef):
+                    for s2 in st.body:
+                        if isinstance(s2, ast.FunctionDef):
+                            _coalesce_aliases(s2)
             ast.fix_missing_locations(tree)
             out[rel] = ast.unparse(tree) + "\n"
     return out, inlined
